@@ -104,7 +104,10 @@ func (o wopts) String() string {
 
 var errCheck = status.Error(codes.FailedPrecondition, "check failed")
 
-type cb struct{ ids []string; created int }
+type cb struct {
+	ids     []string
+	created int
+}
 
 func (o wopts) build(c *cb) []resource.WriteOption {
 	var w []resource.WriteOption
@@ -735,8 +738,8 @@ func configs() []config {
 	}
 }
 
-func bfs(s *hx.Seq, cfg config, depth int) {
-	ops := alphabet(cfg, s.Thorough)
+func bfs(s *hx.Seq, cfg config, depth int, fullProduct bool) {
+	ops := alphabet(cfg, fullProduct)
 	var rp struct{ Path []op }
 	if s.Replaying(&rp) {
 		if k, m, _ := runPath(cfg, rp.Path); k != "" {
@@ -802,15 +805,25 @@ func main() {
 	h := hx.New("C01")
 	for _, cfg := range configs() {
 		cfg := cfg
+		// quick: depth 2 with every single option and every pair of options;
+		// thorough: depth 2 with the full option product ...
 		h.Seq(cfg.Name, func(s *hx.Seq) {
-			d := 2
-			if s.Thorough {
-				d = 3
+			bfs(s, cfg, 2, s.Thorough)
+		})
+		// ... and depth 3 with the pairwise alphabet (thorough only)
+		h.Seq(cfg.Name+"/depth3", func(s *hx.Seq) {
+			if !s.Thorough {
+				var rp struct{ Path []op }
+				if !s.Replaying(&rp) {
+					s.Note("depth 3 runs in the thorough tier only")
+					return
+				}
 			}
 			if strings.Contains(cfg.Name, "generated") {
-				d = 2
+				s.Note("the generated-id collision configurations are covered at depth 2")
+				return
 			}
-			bfs(s, cfg, d)
+			bfs(s, cfg, 3, false)
 		})
 	}
 	h.Run()
